@@ -556,37 +556,36 @@ theorem level_cty_is_least (cev : CtyEval) (ov : PropEval) (fuel : Nat) (cv : CV
 section Examples
 open Gen.Divisor
 
-/-- Sainte-Laguë, four parties, 12 seats; party 3 holds 3 direct seats against a share of 1, party 0 holds 5 -/
-def exVotes : Votes := [(0, 500), (1, 300), (2, 150), (3, 50)]
-def exPrev : Seats := [(0, 5), (3, 3)]
+/-- Sainte-Laguë, three parties, 5 seats (shares 3:1:1); party 2 holds 2 direct seats, party 0 holds 1 -/
+def exVotes : Votes := [(0, 53), (1, 31), (2, 16)]
+def exPrev : Seats := [(0, 1), (2, 2)]
 
-example : haEval sainte_lague exVotes 12 [] [] = .ok [(.cand 0, 6), (.cand 1, 4), (.cand 2, 2), (.cand 3, 1)] := by
+example : haEval sainte_lague exVotes 5 [] [] = .ok [(.cand 0, 3), (.cand 1, 1), (.cand 2, 1)] := by
   decide +kernel
-example : allowOverhang (haEval sainte_lague) exVotes 12 exPrev [] = .ok 2 := by decide +kernel
-example : levelOverhang (haEval sainte_lague) 400 exVotes 12 exPrev [] = .ok 18 := by decide +kernel
-example : adjustedSeatCount (levelOverhang (haEval sainte_lague) 400) (haEval sainte_lague) exVotes 12 exPrev []
-    = .ok [(.cand 0, 10), (.cand 1, 9), (.cand 2, 4)] := by decide +kernel
-example : haEval sainte_lague exVotes (12 + 18) [] [] = .ok [(.cand 0, 15), (.cand 1, 9), (.cand 2, 4), (.cand 3, 3)] := by
+example : allowOverhang (haEval sainte_lague) exVotes 5 exPrev [] = .ok 1 := by decide +kernel
+example : levelOverhang (haEval sainte_lague) 400 exVotes 5 exPrev [] = .ok 5 := by decide +kernel
+example : adjustedSeatCount (levelOverhang (haEval sainte_lague) 400) (haEval sainte_lague) exVotes 5 exPrev []
+    = .ok [(.cand 0, 4), (.cand 1, 3)] := by decide +kernel
+example : haEval sainte_lague exVotes (5 + 5) [] [] = .ok [(.cand 0, 5), (.cand 1, 3), (.cand 2, 2)] := by
   decide +kernel
-example : (∀ p ∈ exVotes, 0 < p.2) ∧ (keys exVotes).Nodup ∧ (exPrev.map (·.1)).Nodup ∧ sumSeats exPrev ≤ 12 := by
+example : (∀ p ∈ exVotes, 0 < p.2) ∧ (keys exVotes).Nodup ∧ (exPrev.map (·.1)).Nodup ∧ sumSeats exPrev ≤ 5 := by
   decide +kernel
 example : ∀ p ∈ exPrev, 0 < p.2 →
-    distHas [(.cand 0, 6), (.cand 1, 4), (.cand 2, 2), (.cand 3, 1)] (.cand p.1) = true := by decide +kernel
-example : ∀ p ∈ ([(.cand 0, 6), (.cand 1, 4), (.cand 2, 2), (.cand 3, 1)] : Dist),
+    distHas [(.cand 0, 3), (.cand 1, 1), (.cand 2, 1)] (.cand p.1) = true := by decide +kernel
+example : ∀ p ∈ ([(.cand 0, 3), (.cand 1, 1), (.cand 2, 1)] : Dist),
     ∃ c, p.1 = .cand c ∧ 0 < getD exVotes c 0 := by
   intro p hp
   simp only [List.mem_cons, List.not_mem_nil, or_false] at hp
-  rcases hp with rfl | rfl | rfl | rfl
+  rcases hp with rfl | rfl | rfl
   · exact ⟨0, rfl, by decide +kernel⟩
   · exact ⟨1, rfl, by decide +kernel⟩
   · exact ⟨2, rfl, by decide +kernel⟩
-  · exact ⟨3, rfl, by decide +kernel⟩
-/-- the two-stage wrapper on the same input: totals, house 12 + 18 = 30 -/
+/-- the two-stage wrapper on the same input: totals, house 5 + 5 = 10 -/
 example : multistage [(mockStage exPrev, exVotes),
-      (adjustedSeatCount (levelOverhang (haEval sainte_lague) 400) (haEval sainte_lague), exVotes)] 12 [] []
-    = .ok [(.cand 0, 15), (.cand 3, 3), (.cand 1, 9), (.cand 2, 4)] := by decide +kernel
-/-- a party outside the tier (party 4, no votes) with direct seats and tier overhang: the loop runs from 12 − 2 -/
-example : levelOverhang (haEval sainte_lague) 400 exVotes 12 [(3, 2), (4, 2)] [] = .ok 10 := by decide +kernel
+      (adjustedSeatCount (levelOverhang (haEval sainte_lague) 400) (haEval sainte_lague), exVotes)] 5 [] []
+    = .ok [(.cand 0, 5), (.cand 2, 2), (.cand 1, 3)] := by decide +kernel
+/-- a party outside the tier (party 3, no votes) with a direct seat, and tier overhang: the loop runs from 5 − 1 -/
+example : levelOverhang (haEval sainte_lague) 400 exVotes 5 [(2, 2), (3, 1)] [] = .ok 6 := by decide +kernel
 /-- by constituency: two constituencies with 3 and 2 seats, D'Hondt, party 1 holds both seats of constituency 1 -/
 example : levelOverhangCty (byConstituencyFixed (haEval d_hondt) [(0, 3), (1, 2)]) (haEval d_hondt) 400
     [(0, [(0, 60), (1, 30)]), (1, [(0, 50), (1, 40)])] 5 [(1, [(1, 2)])] = .ok 2 := by decide +kernel
